@@ -293,7 +293,7 @@ pub open spec fn ref_btc_ok(res: EvaluatedScript, b: Seq<u8>, net: Network) -> b
         //# C16:bitcoin_payload_is_exactly_the_pushed_data
         single_push(bytes@) matches Some(p) ==> (r.pattern matches ScriptPattern::OpReturn(s) && payload_text(p, s)),
         !(r.pattern is Error),
-//@before `let pattern = ScriptPattern::OpReturn(`
+//@before `let pattern =`
         proof { reveal_strlit(""); assert(""@ =~= Seq::<char>::empty()); }
 //@end
 
@@ -312,7 +312,7 @@ pub open spec fn ref_btc_ok(res: EvaluatedScript, b: Seq<u8>, net: Network) -> b
     ensures
         //# C05:p2pk_address_is_p2pkh_of_hash160_of_the_pushed_key
         addr_is(r, AddrSpec::P2pkh(hash160_spec(p2pk_key(script.b@))), network),
-//@before `let pk = match script.instructions().next() {`
+//@before `let pk = match`
     proof { lemma_le_bounds(); }
 //@end
 
